@@ -69,6 +69,18 @@ for _p, _txt, _orc in [
 ]:
     CHECKS[_p] = ('memosim', 'exploration', '4', _txt, MEMO_NOTE, MEMO_TECH % _orc)
 
+CHECKS['C13'] = ('crashsim', 'fault_enumeration', '4',
+    'per sampled scenario (persistent backend x encoding x prior contents x one mutating operation incl. dump/sync from a '
+    'cached handle and merely opening) EVERY crash point at file-system/SQL-call granularity is executed - process killed '
+    'before each mkdir/open-for-write/raw write/close/unlink/rmdir/rename/DML/commit, plus a partial-write crash for every '
+    'raw write - and a fresh process must read the survivor without error and see old-or-new for touched keys, untouched '
+    'keys unchanged and no foreign key',
+    'crash points are exhaustive per scenario, scenarios are sampled; process-kill semantics (no power loss/fsync model); '
+    'sqlite statements/commits atomic at Python-call granularity; .pyc writes of the import system not intercepted',
+    'deterministic simulation with fault injection: exhaustive crash-point enumeration (real process death at every '
+    'intercepted mutating fs/SQL call, incl. torn writes) over seeded scenarios, survivor checked by a fresh process '
+    'against the old-or-new dict model')
+
 NA = [
     ('C09', 'pure function of (signature, call form, keymap options): no history, schedule, clock, fault or restart for a simulator to vary; DESIGN.md section 5'),
     ('C10', 'pure function of a pair of calls and keymap options; the only process-dependent aspect (hash randomisation) is covered under C17; DESIGN.md section 5'),
